@@ -77,9 +77,15 @@ def mc_text(insts, variant, emit):
 
 
 def legendre(l, x2):
-    """P_l as polynomial in x (x2 = x^2, exact for Fractions), even l only"""
-    coef = {0: [1], 2: [Fraction(-1, 2), Fraction(3, 2)], 4: [Fraction(3, 8), Fraction(-30, 8), Fraction(35, 8)]}[l]
-    return sum(c * x2 ** p for p, c in enumerate(coef))
+    """P_l(x) with x = +sqrt(x2) (the kernel works with mu >= 0 on the half mesh).  Even l: exact polynomial in x2 (Fractions);
+    odd l: x times a polynomial in x2 — the irrational factor is taken in float64 (the kernel evaluates P_l in float32)."""
+    from math import comb
+    half = l // 2
+    # P_l(x) = 2^-l sum_k (-1)^k C(l,k) C(2l-2k,l) x^(l-2k)
+    even_part = sum(Fraction((-1) ** k * comb(l, k) * comb(2 * l - 2 * k, l), 2 ** l) * x2 ** (half - k) for k in range(half + 1))
+    if l % 2 == 0:
+        return even_part
+    return float(even_part) * float(x2) ** 0.5
 
 
 def sgn(i, n):
@@ -200,21 +206,22 @@ def run(chk):
                     chk.violation(f'{tag}-threads', f'{c}: mode counts differ between nthread=1 and nthread={nt}', payload)
             # means: value, |k|, multipoles against the rational oracle on the observed (validated) assignment
             w = rng.integers(1, 1000, (n, n, kz)).astype(np.float64)
-            poles = np.array([0, 2, 4], dtype=np.int64)
+            PL = [[0, 2, 4], [0, 1, 2, 3, 4], [0, 2, 4, 6], [0, 3, 5]][ci % 4]
+            poles = np.array(PL, dtype=np.int64)
             if c['kind'] == 'kmu':
                 wc, cnt, wpoles, cpoles, kavg = call(w, nthread=2, poles=poles)
             else:
                 wc, cnt, wpoles, cpoles, kavg = call(w, nthread=2)
             S = np.zeros((nb, nm))
             SK = np.zeros((nb, nm))
-            SP = {l: [Fraction(0)] * nb for l in (0, 2, 4)}
+            SP = {l: [Fraction(0) if l % 2 == 0 else 0.0] * nb for l in PL}
             for (i, j, k), (b, m, mult) in assign.items():
                 S[b - 1, m - 1] += mult * w[i, j, k]
                 k2 = sgn(i, n) ** 2 + sgn(j, n) ** 2 + k * k
                 SK[b - 1, m - 1] += mult * np.sqrt(k2)
                 if c['kind'] == 'kmu':
                     mu2 = Fraction(k * k, k2) if k2 else Fraction(0)
-                    for l in (0, 2, 4):
+                    for l in PL:
                         SP[l][b - 1] += mult * int(w[i, j, k]) * (2 * l + 1) * legendre(l, mu2)
             nzm = exp_counts > 0
             if not np.allclose(wc[nzm], (S[nzm] / exp_counts[nzm]), rtol=1e-9, atol=0):
@@ -226,13 +233,13 @@ def run(chk):
                 if not np.array_equal(cpoles, ck):
                     chk.violation(f'{tag}-pole-counts', f'{c}: N_mode of the multipoles {cpoles.tolist()} != sum over mu of the wedge counts {ck.tolist()}', payload)
                 # the multipoles must not depend on the order / subset in which they are requested
-                for plist in ([2, 0], [4, 0, 2], [2, 4], [0]):
+                for plist in (PL[::-1], PL[1:], [PL[-1], PL[0]], [0]):
                     _, _, wp2, cp2, _ = call(w, nthread=2, poles=np.array(plist, dtype=np.int64))
                     for ip2, l2 in enumerate(plist):
-                        if not np.allclose(wp2[ip2], wpoles[[0, 2, 4].index(l2)], rtol=1e-6, atol=1e-9 * (1 + np.abs(wpoles[0]).max())):
-                            chk.violation(f'{tag}-pole-order-l{l2}', f'{c}: multipole l={l2} requested as poles={plist} differs from its value with poles=[0,2,4] '
-                                          f'({wp2[ip2].tolist()} vs {wpoles[[0, 2, 4].index(l2)].tolist()})', payload)
-                for ip, l in enumerate((0, 2, 4)):
+                        if not np.allclose(wp2[ip2], wpoles[PL.index(l2)], rtol=1e-6, atol=1e-9 * (1 + np.abs(wpoles[0]).max())):
+                            chk.violation(f'{tag}-pole-order-l{l2}', f'{c}: multipole l={l2} requested as poles={plist} differs from its value with poles={PL} '
+                                          f'({wp2[ip2].tolist()} vs {wpoles[PL.index(l2)].tolist()})', payload)
+                for ip, l in enumerate(PL):
                     want = np.array([float(SP[l][b] / int(ck[b])) if ck[b] else 0.0 for b in range(nb)])
                     # P_n is evaluated in float32 inside the kernel: tolerance 2e-5 relative to the bin's mean |value|
                     scale = np.array([abs(float(SP[0][b] / int(ck[b]))) if ck[b] else 1.0 for b in range(nb)]) + 1e-30
